@@ -322,8 +322,9 @@ Section Api.
              descriptor (known finding D10): the model leaves its domain *)
           let w := if skind_eqb (s_kind sr) KTask && Nat.eqb (s_pending sr) 0 then emit w (TFault 7) else w in
           let w1 := if opens_fd (s_kind sr) then set_fds w (w_fds w - 1) else w in
-          (* expirations / notifications die with the internal descriptor; a pending signal stays pending in the process *)
-          upd_src w1 s (src_with false (match s_kind sr with KSgn => s_pending sr | _ => 0 end) false)
+          (* expirations / notifications die with the internal descriptor; a pending signal stays pending in the process,
+             a dead process stays dead *)
+          upd_src w1 s (src_with false (match s_kind sr with KSgn | KPid => s_pending sr | _ => 0 end) false)
         else w
     end.
 
@@ -973,7 +974,8 @@ Section Api.
                 let w0 := set_errno w 0 in
                 (* consume the source, build the event *)
                 let oneshot := f_oneshot (s_fl s) in
-                let w1 := upd_src w0 i (src_with (s_armed s) 0 (oneshot || s_shot s)) in
+                (* a pid descriptor stays readable once the process is dead: the readiness is not consumed *)
+                let w1 := upd_src w0 i (src_with (s_armed s) (match s_kind s with KPid => s_pending s | _ => 0 end) (oneshot || s_shot s)) in
                 match s_kind s with
                 | KPs =>
                     match m_pipe mr with
